@@ -105,6 +105,14 @@ def r2_floor(ctx):
   ctx.ob('C06.R2', init, 'the aperture never has a lower bound of zero members (min_size clamped to >= 1 or rejected)', ok, what, why)
 
 
+def _not_forced(call):
+  """_ContractAperture() / _ContractAperture(False) / _ContractAperture(force=False): the default written out is the default."""
+  vals = list(call.args) + [k.value for k in call.keywords if k.arg == 'force']
+  if any(k.arg not in ('force',) for k in call.keywords) or len(vals) > 1:
+    return False
+  return all(isinstance(v, ast.Constant) and v.value is False for v in vals)
+
+
 def r2(ctx):
   r2_floor(ctx)
   prog = ctx.prog
@@ -130,7 +138,7 @@ def r2(ctx):
       i = con[0]
       under = H(i, 'aperture_load <= self._min_load') or H(i, LOAD + ' <= self._min_load') or H(i, 'self._max_load <= self._min_load')
       ok = under and (H(i, 'aperture_size > self._min_size') or H(i, 'self._size > self._min_size')) and len(con) == 1 \
-        and not ev[i].node.args and not ev[i].node.keywords
+        and _not_forced(ev[i].node)
       ctx.ob('C06.R2', adj, 'contraction dominated by load <= min_load and size > min_size, never forced', ok, 'contraction under facts %s' % sorted(set(FACTS(ev[:i])))[:12], why)
   ctx.floor('C06.R2', 'expansion paths', n_e, 1)
   ctx.floor('C06.R2', 'contraction paths', n_c, 1)
